@@ -498,6 +498,7 @@ def _strategy_base():
 
         def on_open_position(self, order):
             self._reentered = False
+            self._tp_placed = False
             self._log('on_open_position', getattr(order, '_vf_oid', -1))
             self._log_liq()
             self._apply_exits(self.spec.get('on_open'), self.position.entry_price, 'on_open_position')
@@ -530,6 +531,11 @@ def _strategy_base():
             self._log('on_cancel')
 
         def update_position(self):
+            if self.spec.get('tp_when_no_entry_orders') and not getattr(self, '_tp_placed', False) and len(self.entry_orders) == 0:
+                # a strategy that waits until the framework reports no entry order any more before it places its exit
+                self._tp_placed = True
+                d = self.spec['tp_when_no_entry_orders']
+                self._apply_exits({'tp': 'all', 'tp_d': d}, self.position.entry_price, 'update_position')
             for u in self.spec.get('update', []):
                 if u['at'] != self.index:
                     continue
